@@ -41,7 +41,11 @@ func HostileMsg(rng *rand.Rand, names []string) (*dns.Msg, []byte) {
 	qtypes := []uint16{dns.TypeA, dns.TypeAAAA, dns.TypeNS, dns.TypeSOA, dns.TypeMX, dns.TypeTXT, dns.TypeCNAME, dns.TypeDS, dns.TypeANY, dns.TypeOPT, dns.TypeAXFR, dns.TypeIXFR, 0, 65535, dns.TypeSVCB, dns.TypeHTTPS, dns.TypeDNSKEY, dns.TypeRRSIG, dns.TypeNSEC, dns.TypePTR, dns.TypeSRV, 99, 255, 256}
 	classes := []uint16{dns.ClassINET, dns.ClassINET, dns.ClassINET, dns.ClassCHAOS, dns.ClassHESIOD, dns.ClassNONE, dns.ClassANY, 0, 65535}
 	for i := 0; i < nq; i++ {
-		m.Question = append(m.Question, dns.Question{Name: hostileName(rng, names), Qtype: qtypes[rng.Intn(len(qtypes))], Qclass: classes[rng.Intn(len(classes))]})
+		qt := qtypes[rng.Intn(len(qtypes))]
+		if rng.Intn(10) == 0 {
+			qt = uint16(1000 + rng.Intn(64000)) // mostly types the DNS library has no mnemonic for
+		}
+		m.Question = append(m.Question, dns.Question{Name: hostileName(rng, names), Qtype: qt, Qclass: classes[rng.Intn(len(classes))]})
 	}
 	// OPT records
 	nopt := 0
